@@ -43,35 +43,43 @@ def build_model():
             return False, r.stdout
         return True, r.stdout
 
-def build_driver(name, extra_src=(), flags=()):
+def build_driver(name, extra_src=(), flags=(), sanitize=True, suffix=''):
     """Compile harness/<name>.cpp against the CURRENT /repo tree. Returns (path|None, log)."""
     out = os.path.join(WORK, 'bin'); os.makedirs(out, exist_ok=True)
-    exe = os.path.join(out, '%s.%d' % (name, os.getpid()))
+    exe = os.path.join(out, '%s%s.%d' % (name, suffix, os.getpid()))
     srcs = [os.path.join(VERIF, 'harness', name + '.cpp')] + [x.replace('$REPO', REPO) for x in extra_src]
     import glob
     srcs += sorted(glob.glob(REPO + '/include/binlog/*.cpp')) + sorted(glob.glob(REPO + '/include/binlog/detail/*.cpp'))
-    cmd = ['g++'] + CXXFLAGS + list(flags) + ['-I' + REPO + '/include', '-I' + REPO + '/bin', '-DVERIF_REPO="%s"' % REPO] + srcs + ['-o', exe, '-pthread']
+    base = CXXFLAGS if sanitize else ['-std=c++14', '-O1', '-g', '-UNDEBUG']
+    cmd = ['g++'] + base + list(flags) + ['-I' + REPO + '/include', '-I' + REPO + '/bin', '-DVERIF_REPO="%s"' % REPO] + srcs + ['-o', exe, '-pthread']
     r = sh(cmd)
     if r.returncode != 0:
         return None, r.stdout
     return exe, r.stdout
 
-def run_lines(exe, lines, timeout=600, env=None):
+def run_lines(exe, lines, timeout=150, env=None, mem_limit=None):
     """Feed case lines to a line-oriented driver; return list of output lines (same count) or None + log."""
     inp = '\n'.join(lines) + '\n'
     e = dict(os.environ); e['ASAN_OPTIONS'] = 'detect_leaks=0:abort_on_error=0'; e['UBSAN_OPTIONS'] = 'print_stacktrace=1'
     if env: e.update(env)
     try:
-        r = subprocess.run([exe] if isinstance(exe, str) else exe, input=inp, stdout=subprocess.PIPE, stderr=subprocess.PIPE, universal_newlines=True, timeout=timeout, env=e, errors='replace')
+        pre = None
+        if mem_limit:
+            import resource
+            pre = lambda: resource.setrlimit(resource.RLIMIT_AS, (mem_limit, mem_limit))
+        r = subprocess.run([exe] if isinstance(exe, str) else exe, preexec_fn=pre, input=inp, stdout=subprocess.PIPE, stderr=subprocess.PIPE, universal_newlines=True, timeout=timeout, env=e, errors='replace')
     except subprocess.TimeoutExpired as ex:
-        return None, 'timeout after %ss' % timeout, -1
+        so = ex.stdout or ''
+        if isinstance(so, bytes): so = so.decode('latin1')
+        out = so.split('\n')[:-1]
+        return out, 'timeout after %ss' % timeout, -9
     out = r.stdout.split('\n')
     if out and out[-1] == '': out.pop()
     return out, r.stderr, r.returncode
 
 MODELDRV = os.path.join(VERIF, 'ocaml', 'modeldrv')
 
-def run_both(drv, lines, chunk=2000, timeout=600):
+def run_both(drv, lines, chunk=2000, timeout=150):
     """Run model and implementation on the same lines. Returns (model_out, impl_out, problems)."""
     m_all, i_all, problems = [], [], []
     for k in range(0, len(lines), chunk):
@@ -113,6 +121,8 @@ def coq_check_props(pid):
             res['assumptions_raw'] = open(alog).read()
         else:
             if os.path.exists(alog): os.remove(alog)
+            vo = os.path.join(COQ, target)
+            if os.path.exists(vo): os.remove(vo)     # a stale .vo must not count as discharged
         return res
 
 def parse_assumptions(raw):
@@ -218,8 +228,8 @@ def compare_corr(ctx, drv, lines, label='corr'):
 
 def isolate_crash(exe, lines, start):
     """Find the first single line (from index start) on which the implementation dies; returns (idx, stderr)."""
-    for k in range(start, min(len(lines), start + 50)):
-        out, err, rc = run_lines(exe, [lines[k]], 60)
+    for k in range(start, min(len(lines), start + 20)):
+        out, err, rc = run_lines(exe, [lines[k]], 20)
         if out is None or rc != 0 or len(out) != 1:
             return k, (err or '')[-3000:]
     return None, ''
